@@ -419,7 +419,7 @@ theorem error_in_try_catchable (body : M Val) (handlers : List Handler) (oth : O
 example : ∃ s', (tryCore (throw (Sig.err ⟨"Operand is not a number", 1, 1⟩ none))
       [fun _ => pure (some (Val.num 7))] none).run.run {} = (.ok (Val.num 7), s') := ⟨_, rfl⟩
 
-/-- The evaluator model never yields `panic` — PARTIAL.
+/-- The evaluator model never yields `panic` — PARTIAL (one gap left: calls).
 
     Full statement (kept visible): for every tree `n` the parser can return (C07's `WellFormed`), every
     scope `sc`, every state `s` with `Inv s` and every fuel `f`: `(eval f sc n).run.run s` does not end in
@@ -429,28 +429,45 @@ example : ∃ s', (tryCore (throw (Sig.err ⟨"Operand is not a number", 1, 1⟩
 
     Proved here: exactly that — plus preservation of `Inv` — for every tree in `Frag`
     (`Ecal/Lemmas/C06NoPanic.lean`), ANY scope, ANY heap (operands of any kind, dangling references, cyclic
-    containers), any fuel. `Inv s` only says: the declarations in the function table and the trees of the
-    interpolation table are in `Frag` (`inv_empty`: it holds initially). `Frag` contains, nested to any depth:
-    * literals `number true false null`, raw AND interpolating string literals (every embedded expression
-      whose tree is in the table is evaluated; `Inv` makes those trees `Frag`), list literals (any length), map literals —
-      an entry that is not a key-value pair and an unhashable key are ERRORS (the repaired sites), not panics;
+    containers), any fuel. `Inv s`: every declaration in the function table is a `Frag` function node, every
+    tree of the interpolation table is in `Frag` (`inv_empty`: it holds initially). `Frag` contains, nested to
+    any depth (shape conditions: token present, child counts, children in `Frag` — what the parser produces):
+    * literals `number true false null`, raw and interpolating strings, list literals, map literals (an entry
+      that is not a key-value pair and an unhashable key are ERRORS — the repaired sites — not panics);
     * unary `plus minus not`, `guard`; binary `plus minus times div divint modint and or == != >= > <= <
-      in notin hasprefix hassuffix` (deep equality, the stringifying comparison included); `like` and the
-      other nodes the model does not evaluate end in `unsupported`, never `panic`;
-    * identifiers without access path (read), `a := e` and `let a := e`, `let a` / `let [a, b]`;
-    * `statements` (any length), `break continue return`;
-    * `if` / `elif` / `else` (any number of guard/block pairs), condition loops (`loop` with a `guard`).
-    Also proved for every input (no fragment needed): the access-path functions `getValue setValue
-    containerGet containerWalk listIndex` (the three repaired negative-index sites), all heap / scope
-    primitives, `sprint`, `deepEq`.
-    Missing from `Frag`: access paths in the tree (`a.b[c]`: `accessString` needs a loop invariant for its
-    early return), destructuring assignment, `for … in` loops, `try` (control skeleton:
-    `error_in_try_catchable` and the C04 combinator theorems; `attemptE` / `withFreshIs` rules exist),
-    function declarations and calls (builtin argument checks: `builtin_total` on the Prims model; the
-    dangling-id case of `runFunction` is an `unsupported` outcome now), sink / import / mutex (not in the model). -/
+      in notin hasprefix hassuffix`; `like` and the other nodes the model does not evaluate: `unsupported`;
+    * identifiers WITH access paths `a.b[c].d…` (read: `accessString` with a loop invariant for its early
+      return; write: `identSet`), `:=` with an identifier / path / destructuring list on the left, plain or
+      under `let`; `let a`, `let [a, b]`;
+    * `statements`, `break continue return`; `if`/`elif`/`else`; condition loops and `for … in` loops over
+      lists, maps, iterator functions and single values, one or several loop variables;
+    * `try` with every clause shape (`except { }`, `except e { }`, `except as e { }`, typed `except "T", "U"
+      [as e] { }`, `otherwise`, `finally`);
+    * function declarations (named / anonymous, parameters with and without defaults).
+    Proved for every input besides: `runFunction` on ANY table entry with ANY arguments under `Inv`
+    (`user_function_run_never_panics`), `getValue setValue containerGet containerWalk listIndex` (the three
+    repaired negative-index sites), heap / scope primitives, `sprint`, `deepEq`, `bindLoopVars`, `errObject`,
+    the combinators `ifChain guardLoop iterLoop dispatchExcept tryCore tryFinally callCore withFreshIs`.
+    REMAINING: a `funccall` link inside an access path (`f(x)`, `a.b(x)`): `callFunction` / `runBuiltin`
+    (the Eval-side builtins `lenB addB delB concatB newB`, range, raise, type, log) are not connected yet —
+    in `Frag` a path has no call link (`Link` has no `call` constructor; the argument checks of the builtins
+    are covered by `builtin_total` on the Prims model); the bridge `WellFormed n → Frag n` (C07's predicate)
+    is not proved; sink / import / mutex are not in the model. -/
 theorem eval_never_panics_partial (f sc : Nat) (n : Ecal.Parse.Node) (hn : Frag n) (s : St) (hs : Inv s) :
     ((eval f sc n).run.run s).1 ≠ .error Sig.panic ∧ Inv ((eval f sc n).run.run s).2 :=
   eval_frag_no_panic f sc n hn s hs
+
+/-- Running any entry of the function table with any arguments (any caller scope, heap, fuel) never yields
+    `panic` and preserves `Inv`: function.Run builds the frame, binds `this`/`super`/parameters (defaults
+    evaluated in the caller's scope) and evaluates the body; a dangling id is outside the model. -/
+theorem user_function_run_never_panics (k sc id : Nat) (args : List Val) (s : St) (hs : Inv s) :
+    ((runFunction k sc id args).run.run s).1 ≠ .error Sig.panic ∧ Inv ((runFunction k sc id args).run.run s).2 := by
+  have h := runFunction_np k sc id args s hs
+  refine ⟨?_, h.1⟩
+  intro he
+  have h2 := h.2
+  rw [he] at h2
+  exact h2 rfl
 
 /-- non-vacuity: a tree of the fragment (`a := [not (5 % true), {1}]`: ill-typed operands, a map entry that
     is not a pair) and a state satisfying the invariant -/
